@@ -389,21 +389,23 @@ struct BurstCase
   std::vector<int> bursts;  // indices into the table
   auto tie() { return std::tie(bursts); }
 };
+// fixed table (a saved case indexes it, so it must not depend on the tier); the GENERATOR draws indices 0..11 in the quick
+// tier and 0..14 in the thorough tier (0..13 under TSan: 2^32 locked assignments take minutes there)
 static const std::vector<long long> &burstTable()
 {
-  static const std::vector<long long> t = [] {
-    std::vector<long long> v = {1, 2, 3, 255, 256, 257, 65535, 65536, 65537, 131072, 196608, 1 << 20};
-    if (const char *e = getenv("PBT_TIER"))
-      if (std::string(e) == "thorough") {
-        v.push_back(1ll << 24);
-        v.push_back((1ll << 24) + 1);
-#ifndef C12_TSAN
-        v.push_back(1ll << 32);
-#endif
-      }
-    return v;
-  }();
+  static const std::vector<long long> t = {1, 2, 3, 255, 256, 257, 65535, 65536, 65537, 131072, 196608, 1 << 20, 1ll << 24, (1ll << 24) + 1, 1ll << 32};
   return t;
+}
+static int burstMaxIndex()
+{
+  const char *e = getenv("PBT_TIER");
+  if (!e || std::string(e) != "thorough")
+    return 11;
+#ifdef C12_TSAN
+  return 13;
+#else
+  return 14;
+#endif
 }
 template <class T>
 static void value_bursts(const BurstCase &c, pbt::Ctx &ctx)
@@ -532,7 +534,7 @@ static void register_properties()
   pbt::registry().back()->noShrink = true;
   pbt::property<BacklogCase>("buffer_backlog_string", 3, blc, buffer_backlog<std::string>);
   pbt::registry().back()->noShrink = true;
-  auto brc = gen::build<BurstCase>(gen::set(&BurstCase::bursts, pbt::vec(pbt::range<int>(0, 63), 6)));
+  auto brc = gen::build<BurstCase>(gen::set(&BurstCase::bursts, pbt::vec(pbt::range<int>(0, burstMaxIndex()), 6)));
   pbt::property<BurstCase>("value_bursts_int", 20, brc, value_bursts<long long>);
   pbt::property<BurstCase>("value_bursts_string", 10, brc, value_bursts<std::string>);
   auto valc = gen::build<ValCase>(gen::set(&ValCase::assignments, pbt::range<int>(0, 300)), gen::set(&ValCase::producerPause, pbt::range<int>(0, 3)),
